@@ -1024,7 +1024,10 @@ func (e *Exec) evalIndex(st *State, x *ast.IndexExpr) Term {
 	if n, ok := isGmap(xt); ok {
 		m := e.eval(st, x.X)
 		k := e.evalTo(st, x.Index, n.TypeArgs().At(0))
-		return Select(e.S.VMVal(m), k)
+		v := Select(e.S.VMVal(m), k)
+		// references held in a ghost map denote objects that exist
+		e.assumeType(st, v, n.TypeArgs().At(1))
+		return v
 	}
 	switch u := xt.Underlying().(type) {
 	case *types.Map:
